@@ -1,0 +1,104 @@
+//go:build verif
+
+package chord
+
+import (
+	"sync/atomic"
+
+	"go.miragespace.co/specter/spec/chord"
+)
+
+// VerifHookFn receives the name of an instrumentation point and the ID of
+// the node executing it. It may block, sleep or record events.
+type VerifHookFn func(point string, self uint64)
+
+var verifHook atomic.Pointer[VerifHookFn]
+
+// VerifSetHook installs (or removes, with nil) the instrumentation callback.
+func VerifSetHook(fn VerifHookFn) {
+	if fn == nil {
+		verifHook.Store(nil)
+		return
+	}
+	verifHook.Store(&fn)
+}
+
+func verifPoint(point string, n *LocalNode) {
+	if fn := verifHook.Load(); fn != nil {
+		(*fn)(point, n.ID())
+	}
+}
+
+// VerifPointers is a snapshot of the neighbour pointers of a node.
+type VerifPointers struct {
+	Predecessor    *uint64
+	Surrogate      *uint64
+	Successors     []uint64
+	Fingers        []uint64 // index k-1 holds finger k; entries that are unset are reported as ^uint64(0)
+	FingersPresent []bool
+}
+
+func (n *LocalNode) VerifPointers() VerifPointers {
+	var p VerifPointers
+	n.predecessorMu.RLock()
+	if n.predecessor != nil {
+		id := n.predecessor.ID()
+		p.Predecessor = &id
+	}
+	n.predecessorMu.RUnlock()
+	n.successorsMu.RLock()
+	for _, s := range n.successors {
+		if s != nil {
+			p.Successors = append(p.Successors, s.ID())
+		}
+	}
+	n.successorsMu.RUnlock()
+	if n.surrogateMu.TryRLock() {
+		if n.surrogate != nil {
+			id := n.surrogate.ID()
+			p.Surrogate = &id
+		}
+		n.surrogateMu.RUnlock()
+	}
+	p.Fingers = make([]uint64, chord.MaxFingerEntries)
+	p.FingersPresent = make([]bool, chord.MaxFingerEntries)
+	for k := 1; k <= chord.MaxFingerEntries; k++ {
+		n.fingers[k].computeView(func(node chord.VNode) {
+			if node != nil {
+				p.Fingers[k-1] = node.ID()
+				p.FingersPresent[k-1] = true
+			} else {
+				p.Fingers[k-1] = ^uint64(0)
+			}
+		})
+	}
+	return p
+}
+
+func (n *LocalNode) VerifState() chord.State { return n.state.Get() }
+
+func (n *LocalNode) VerifStateHistory() []chord.State { return n.state.History() }
+
+func (n *LocalNode) VerifKV() chord.KVProvider { return n.kv }
+
+// VerifClearPredecessor puts the node in the state checkPredecessor leaves
+// behind after it detected a failed predecessor.
+func (n *LocalNode) VerifClearPredecessor() {
+	n.predecessorMu.Lock()
+	n.predecessor = nil
+	n.predecessorMu.Unlock()
+}
+
+// VerifNodeState exposes the lifecycle state machine on its own.
+type VerifNodeState struct{ s *nodeState }
+
+func NewVerifNodeState(initial chord.State) *VerifNodeState {
+	return &VerifNodeState{s: newNodeState(initial)}
+}
+
+func (v *VerifNodeState) Transition(exp, nxt chord.State) (chord.State, bool) {
+	return v.s.Transition(exp, nxt)
+}
+func (v *VerifNodeState) Set(val chord.State)    { v.s.Set(val) }
+func (v *VerifNodeState) Get() chord.State       { return v.s.Get() }
+func (v *VerifNodeState) History() []chord.State { return v.s.History() }
